@@ -106,6 +106,12 @@ def run(R, env):
                 R.ob("C19.R2", "miniwasm:%s:one-stargate" % kind, len(stargates) == 1, "found %d Stargate constructions" % len(stargates), fn=fk)
                 for sbi, ssi, st in stargates:
                     url, val = agg_field(st, "type_url"), agg_field(st, "value")
+                    if url is not None and url[0] == "item" and url[1].endswith("TYPE_URL") and const_str(url) is None:
+                        # `M::TYPE_URL` of a generic wrapper: M is the type of the message whose bytes are
+                        # the value (checked below), so the constant is that type's registered URL
+                        regs = [i_ for i_ in prog.impls if (i_.get("trait") or "").endswith("TypeUrl") and i_.get("self_adt") == adt]
+                        if len(regs) == 1 and "str" in (regs[0]["assoc_consts"].get("TYPE_URL") or {}):
+                            url = ("const", "str", regs[0]["assoc_consts"]["TYPE_URL"]["str"])
                     R.ob("C19.R2", "miniwasm:%s:type_url" % kind, url is not None and fqn is not None and const_str(url) == "/" + fqn, "type_url %s, expected \"/%s\" (the protobuf name of %s)" % (fmt(url or ("none",)), fqn, adt.split("::")[-1]), loc=b.loc(sbi, ssi), fn=fk)
                     carries = val is not None and any(s_[0] == "call" and s_[1].endswith("MessageExt::to_bytes") and norm(s_[2][0]) == norm(t) for s_ in subterms(val))
                     R.ob("C19.R2", "miniwasm:%s:value-is-to_bytes-of-that-message" % kind, carries, "Stargate.value is not to_bytes() of the %s built in this function" % adt.split("::")[-1], loc=b.loc(sbi, ssi), fn=fk)
